@@ -235,8 +235,18 @@ type LookupRecord2 struct {
 type AATLoopkup4 struct {
 	version uint16 `unionTag:"4"`
 	binSearchHeader
-	// Do not include the termination segment
-	Records []AATLookupRecord4 `arrayCount:"ComputedField-nUnits-1"`
+	// Do not include the (optional) termination segment
+	Records []AATLookupRecord4 `arrayCount:"ComputedField-nSegments(src)"`
+}
+
+// nSegments returns the number of segments of a format 4 lookup, without the
+// termination segment (0xFFFF, 0xFFFF), which is optional. [src] is the lookup table.
+func (h binSearchHeader) nSegments(src []byte) int {
+	n := int(h.nUnits)
+	if end := 12 + n*6; n != 0 && len(src) >= end && binary.BigEndian.Uint32(src[end-6:]) == 0xFFFFFFFF {
+		n--
+	}
+	return n
 }
 
 type AATLookupRecord4 struct {
